@@ -50,6 +50,9 @@ var valNested = map[string]int{"u": 6, "s0": 2, "s1": 3, "s2": 2, "s3": 1, "s4":
 	"some": 4, "arr": 8, "map": 6, "cmap": 2, "barr": 2}
 
 func scale(g *GenCfg) *GenCfg {
+	if g.NondetPct == 0 {
+		g.NondetPct = 30 // both commit flavours everywhere
+	}
 	if thorough() {
 		g.Slabs = allSlabs
 		g.SlabAny = true
@@ -76,9 +79,10 @@ func init() {
 				W: map[string]int{"mset": 22, "mget": 6, "mhas": 4, "mrem": 14, "mpop": 2, "msetN": 7, "mremN": 5, "styp": 2, "mgrow": 2,
 					"mbadget": 3, "mbadrem": 3, "mbadhas": 2, "reget": 2, "reopen": 2, "commit": 1, "evict": 1,
 					"app": 2, "rem": 1},
-				Roots:   [][]RootSpec{{{K: "map", Addr: 1, TI: 2}}, {{K: "map", Addr: 1, TI: 2}}, {{K: "cmap", Addr: 1, TI: 3}}},
+				Roots:   [][]RootSpec{{{K: "map", Addr: 1, TI: 2}}, {{K: "map", Addr: 1, TI: 2}}, {{K: "cmap", Addr: 1, TI: 3}}, {{K: "map", Addr: 0, TI: 2}}},
 				MaxBulk: 100, Keys: []int{12, 64, 400},
 				ValW:    valAll, MaxDepth: 2, MaxElems: 5, AcqW: [3]int{8, 1, 1},
+				DigRootsPct: 25, // "any hash distribution": colliding digests too (limit stays 255)
 			})
 		},
 		Or:   func(*Case) Oracles { return Oracles{CmpEvery: 1, CheckHandles: true} },
